@@ -84,19 +84,46 @@ class ListWrapper(typing.MutableSequence[T]):
             assert isinstance(v, typing.Iterable)
             indices = range(*i.indices(len(self)))
             values = list(v)
+            # Let the built-in list validate the assignment (an extended
+            # slice needs exactly as many values as it has slots) before any
+            # ownership hook runs, so that a rejected assignment changes
+            # nothing.
+            list(self._data)[i] = values
         elif -len(self._data) <= i.__index__() < len(self._data):
             indices = range(i.__index__(), i.__index__() + 1)
             values = [typing.cast(T, v)]
         else:
             raise IndexError("list assignment index out of range")
-        for index in indices:
-            self._remove(self._data[index])
-        for value in values:
-            self._add(value)
-        if isinstance(i, slice):
-            self._data[i] = values
+        old = [self._data[index] for index in indices]
+        # Mark the assigned slots before running the hooks: the _add hook of
+        # an owning list moves a value out of its previous owner, which may
+        # be this very list, and that shifts positions but not the marks.
+        marks: typing.List[typing.Any]
+        contiguous = not isinstance(i, slice) or i.step in (None, 1)
+        if contiguous:
+            marks = [object()]
+            start = indices.start if indices.start >= 0 else (
+                indices.start + len(self._data)
+            )
+            self._data[start : start + len(indices)] = marks
         else:
-            self._data[i] = values[0]
+            marks = [object() for _ in indices]
+            for index, mark in zip(indices, marks):
+                self._data[index] = mark
+        try:
+            for value in old:
+                self._remove(value)
+            for value in values:
+                self._add(value)
+        except BaseException:
+            self._data = [x for x in self._data if x not in marks]
+            raise
+        if contiguous:
+            position = self._data.index(marks[0])
+            self._data[position : position + 1] = values
+        else:
+            for mark, value in zip(marks, values):
+                self._data[self._data.index(mark)] = value
 
     @typing.overload
     def __delitem__(self, i: int) -> None:
@@ -137,6 +164,13 @@ class ListWrapper(typing.MutableSequence[T]):
     def extend(self, other: typing.Iterable[T]) -> None:
         for v in other:
             self.append(v)
+
+    def reverse(self) -> None:
+        # Reversing only changes positions, never membership, so no hook is
+        # involved. (The MutableSequence mixin swaps items through
+        # __setitem__, which cannot work for a list whose values are moved
+        # rather than duplicated when they are assigned.)
+        self._data.reverse()
 
     # end functions for ABC
     def __str__(self) -> str:
